@@ -2106,6 +2106,27 @@ impl Interpreter {
         }
     }
 
+    /// Define a binding that reads and writes a property of a namespace object: inside
+    /// `namespace N`, an exported variable `x` *is* `N.x`
+    pub fn env_define_namespace_export(&mut self, name: JsString, ns_obj: Gc<JsObject>) {
+        let property_key = PropertyKey::String(name.cheap_clone());
+        let mut env_ref = self.env.borrow_mut();
+        if let Some(data) = env_ref.as_environment_mut() {
+            data.bindings.insert(
+                VarKey(name),
+                Binding {
+                    value: JsValue::Undefined, // Not used for live bindings
+                    mutable: true,
+                    initialized: true,
+                    import_binding: Some(ImportBinding {
+                        module_obj: ns_obj,
+                        property_key,
+                    }),
+                },
+            );
+        }
+    }
+
     /// Get a variable from the environment chain
     pub fn env_get(&self, name: &JsString) -> Result<JsValue, JsError> {
         let mut current = Some(self.env.cheap_clone());
@@ -2260,6 +2281,13 @@ impl Interpreter {
                             "Assignment to constant variable '{}'",
                             name
                         )));
+                    }
+                    // An exported namespace variable is a property of the namespace object
+                    if let Some(ref live) = binding.import_binding {
+                        let (obj, key) = (live.module_obj.cheap_clone(), live.property_key.clone());
+                        drop(env_ref);
+                        obj.borrow_mut().set_property(key, value);
+                        return Ok(());
                     }
                     // Update binding value - Gc clone/drop handles ref_count automatically
                     binding.value = value;
